@@ -17,7 +17,7 @@
     Blocks and payloads are small integer ids (the harness maps hashes to ids in
     creation order).  Executable; no proofs in this file. *)
 From Coq Require Import ZArith List Bool.
-From VB Require Import Score.KeystoneDefs Gen.Consts.
+From VB Require Import Score.KeystoneDefs Gen.Consts Pow.PowBase Pow.BtcDefs Pow.VbkDefs.
 Import ListNotations.
 Local Open Scope Z_scope.
 
@@ -71,7 +71,10 @@ Record World := mkWorld {
   alts : Tree;            (* ALT blocks of the registry *)
   vbks : Tree;
   btcs : Tree;
-  hidden : list Z         (* ALT blocks whose header the instance has never seen *)
+  hidden : list Z;        (* ALT blocks whose header the instance has never seen *)
+  vtimes : list (Z * Z);  (* timestamp of every VBK header *)
+  btimes : list (Z * Z);  (* timestamp of every BTC header *)
+  vnow : Z                (* the wall clock (seconds) when the bodies are applied *)
 }.
 
 Record Params := mkParams { p_settle : Z; p_vsettle : Z; p_ki : Z; p_maxvtb : Z }.
@@ -80,6 +83,55 @@ Definition mem (x : Z) (l : list Z) : bool := existsb (Z.eqb x) l.
 
 Definition alt_known (W : World) (x : Z) : bool :=
   match find_blk (alts W) x with Some _ => negb (mem x (hidden W)) | None => false end.
+
+(** * Contextual rule of a VBK header that is added to the tree: its timestamp is not below the minimum timestamp
+    (lower median of the up to 20 blocks ending at its parent: [Pow.VbkDefs.vbk_min_timestamp], the model of
+    calculateMinimumTimestamp proved to be that order statistic in Pow/MedianProofs.v) and not more than the
+    maximum future block time ahead of the wall clock: [Pow.VbkDefs.vbk_check_time] (checkBlockTime as coded). *)
+Fixpoint assoc (l : list (Z * Z)) (x : Z) : Z :=
+  match l with [] => 0 | (k, v) :: r => if k =? x then v else assoc r x end.
+Definition vtime (W : World) (v : Z) : Z := assoc (vtimes W) v.
+
+(** the chain parent, grandparent, ... as the block indices the PoW model works on *)
+Fixpoint vchain (W : World) (fuel : nat) (x : Z) : list bidx :=
+  match fuel with
+  | O => []
+  | S f => match find_blk (vbks W) x with
+           | None => []
+           | Some b => mkBidx x (vtime W x) 0 ::
+                       (if b_parent b =? -1 then [] else vchain W f (b_parent b))
+           end
+  end.
+
+Definition hdr_ok (W : World) (v : Z) : bool :=
+  match parent_of (vbks W) v with
+  | None => false
+  | Some p => match vbk_check_time vbk_regtest (vchain W (length (vbks W)) p) (vtime W v) (vnow W) with
+              | Ok TimeOk => true
+              | _ => false
+              end
+  end.
+
+(** the same for a BTC header of a VTB's context: not below the median time past of the 11 blocks ending at its
+    parent, not too far in the future: [Pow.BtcDefs.btc_check_time] *)
+Definition btime (W : World) (b : Z) : Z := assoc (btimes W) b.
+Fixpoint bchain (W : World) (fuel : nat) (x : Z) : list bidx :=
+  match fuel with
+  | O => []
+  | S f => match find_blk (btcs W) x with
+           | None => []
+           | Some b => mkBidx x (btime W x) 0 ::
+                       (if b_parent b =? -1 then [] else bchain W f (b_parent b))
+           end
+  end.
+Definition bhdr_ok (W : World) (b : Z) : bool :=
+  match parent_of (btcs W) b with
+  | None => true
+  | Some p => match btc_check_time btc_regtest (bchain W (length (btcs W)) p) (btime W b) (vnow W) with
+              | TimeOk => true
+              | _ => false
+              end
+  end.
 
 (** * Payloads *)
 Record Atv := mkAtv {
@@ -130,8 +182,8 @@ Record St := mkSt {
 Definition st0 : St := mkSt [0] [(0, -1)] [] [].
 
 Inductive Err :=
-  | EDup | EVbkPrev
-  | EVtbContaining | EVtbMany | EBtcCtx | EBtcPrev | EVNoEndorsed | EVDiffers | EVExpired
+  | EDup | EVbkPrev | EVbkTime
+  | EVtbContaining | EVtbMany | EBtcCtx | EBtcPrev | EBtcTime | EVNoEndorsed | EVDiffers | EVExpired
   | ESfEndorsed | ESfContext | EDiffers | EExpired.
 
 Definition count (x : Z) (l : list Z) : Z := Z.of_nat (length (filter (Z.eqb x) l)).
@@ -148,7 +200,7 @@ Definition body_ids (b : Body) : list (Z * Z) :=
 Definition exec_vbk (W : World) (K : list Z) (v : Z) : list Z + Err :=
   if mem v K then inl K
   else match parent_of (vbks W) v with
-       | Some p => if mem p K then inl (v :: K) else inr EVbkPrev
+       | Some p => if mem p K then (if hdr_ok W v then inl (v :: K) else inr EVbkTime) else inr EVbkPrev
        | None => inr EVbkPrev
        end.
 
@@ -183,6 +235,7 @@ Definition exec_vtb (W : World) (P : Params) (s : St) (w : Vtb) : St + Err :=
   else if p_maxvtb P <=? count c (vin s) then inr EVtbMany
   else if negb (btc_ref_ok W (brefs s) (w_conn w) c) then inr EBtcCtx
   else if negb (btc_chain W (w_conn w) (w_bctx w)) then inr EBtcPrev
+  else if negb (forallb (bhdr_ok W) (w_bctx w)) then inr EBtcTime
   else if negb (mem (w_endorsed w) (vknown s)) then inr EVNoEndorsed
   else if negb (anc_or_eq (vbks W) (w_endorsed w) c) then inr EVDiffers
   else if negb (hdiff_le (vbks W) c (w_endorsed w) (p_vsettle P)) then inr EVExpired
@@ -248,9 +301,9 @@ Fixpoint apply_chain (W : World) (P : Params) (s : St) (ch : list (Z * Body)) : 
 
 Definition In2 (p : Z * Z) (l : list (Z * Z)) : Prop := In p l.
 
-(** a VBK header connects: already known, or its parent is *)
+(** a VBK header connects: already known, or its parent is and the header passes the contextual header rule *)
 Definition vbk_connects (W : World) (K : list Z) (v : Z) : Prop :=
-  In v K \/ exists p, parent_of (vbks W) v = Some p /\ In p K.
+  In v K \/ exists p, parent_of (vbks W) v = Some p /\ In p K /\ hdr_ok W v = true.
 
 Definition add_known (K : list Z) (v : Z) : list Z := if mem v K then K else v :: K.
 
@@ -277,6 +330,7 @@ Definition vtb_valid (W : World) (P : Params) (s : St) (w : Vtb) : Prop :=
   /\ count (w_containing w) (vin s) < p_maxvtb P
   /\ (exists c', In (w_conn w, c') (brefs s) /\ (c' = -1 \/ is_anc_or_eq (vbks W) c' (w_containing w)))
   /\ btc_chain W (w_conn w) (w_bctx w) = true
+  /\ forallb (bhdr_ok W) (w_bctx w) = true
   /\ In (w_endorsed w) (vknown s)
   /\ is_anc_or_eq (vbks W) (w_endorsed w) (w_containing w)
   /\ within (vbks W) (w_containing w) (w_endorsed w) (p_vsettle P).
@@ -358,7 +412,7 @@ Definition err_code (e : Err) : Z :=
   match e with
   | EDup => 1 | EVbkPrev => 2 | EVtbContaining => 3 | EVtbMany => 4 | EBtcCtx => 5 | EBtcPrev => 6
   | EVNoEndorsed => 7 | EVDiffers => 8 | EVExpired => 9 | ESfEndorsed => 10 | ESfContext => 11
-  | EDiffers => 12 | EExpired => 13
+  | EDiffers => 12 | EExpired => 13 | EVbkTime => 14 | EBtcTime => 15
   end.
 
 Definition default_params (settle vsettle ki : Z) : Params := mkParams settle vsettle ki MAX_VBKPOPTX_PER_VBK_BLOCK.
